@@ -1,4 +1,4 @@
-CONSTANTS MaxN = 6 MaxN1 = 4 MaxN2 = 4
+CONSTANTS MaxN = 6 MaxN1 = 4 MaxN2 = 4 MaxNS = 5
 INIT Init
 NEXT Next
 INVARIANT Emitted
